@@ -620,6 +620,10 @@ def run_check(P, tier="quick", seed=0, replay=None):
         "wall_s": round(wall, 2),
         "violations": violations,
     }
+    if obligations == 0:
+        # no theorem registered (yet): do not present empty proof keys
+        for k in ("obligations", "discharged"):
+            evidence["coverage"].pop(k)
     write_json(os.path.join(VERIF, "evidence", prop.id + ".json"), evidence)
     for l in out_lines:
         print(l)
